@@ -113,17 +113,36 @@ type config struct {
 	Scale  float64
 	// Deadline (VERIF_BUDGET_S seconds after start, 0 = none): campaigns stop generating new cases after it
 	Deadline time.Time
+	Start    time.Time
+	// Phase (see phase()): the current sub-campaign may run until this instant (zero: until Deadline)
+	Phase time.Time
 }
 
 var budgetHit atomic.Bool
 
 // expired reports whether the campaign's time budget is used up; loops over generated cases test it.
 func expired() bool {
-	if cfg.Deadline.IsZero() || time.Now().Before(cfg.Deadline) {
+	if cfg.Deadline.IsZero() {
+		return false
+	}
+	d := cfg.Deadline
+	if !cfg.Phase.IsZero() && cfg.Phase.Before(d) {
+		d = cfg.Phase
+	}
+	if time.Now().Before(d) {
 		return false
 	}
 	budgetHit.Store(true)
 	return true
+}
+
+// phase gives the sub-campaign that follows the time until `frac` of the whole budget has passed, so that a
+// campaign made of several parts runs every part even when the budget cuts it short (frac 1 = the rest).
+func phase(frac float64) {
+	if cfg.Deadline.IsZero() {
+		return
+	}
+	cfg.Phase = cfg.Start.Add(time.Duration(float64(cfg.Deadline.Sub(cfg.Start)) * frac))
 }
 
 var cfg config
@@ -148,7 +167,8 @@ func loadCfg() {
 		cfg.Scale = 1
 	}
 	if b, _ := strconv.ParseFloat(os.Getenv("VERIF_BUDGET_S"), 64); b > 0 {
-		cfg.Deadline = time.Now().Add(time.Duration(b * float64(time.Second)))
+		cfg.Start = time.Now()
+		cfg.Deadline = cfg.Start.Add(time.Duration(b * float64(time.Second)))
 	}
 }
 
